@@ -25,28 +25,44 @@ structure Shard where
   id : Nat
   ix : Nat
   rows : List SRow          -- newest first
+  series : List (String × Nat) := []   -- (measurement, series) with a live tsid in the shard's index
+  hidden : List (String × Nat) := []   -- ghost: dropped series whose index items are still stored
+  busy : Bool := false                 -- a merger holds parts of the shard's index
+deriving Repr, DecidableEq
+
+/-- the deleted-tsid index of a policy: is its set in memory / on disk non-empty? -/
+structure Pol where
+  db : String
+  rp : String
+  mem : Bool
+  disk : Bool
 deriving Repr, DecidableEq
 
 structure St where
   shards : List Shard       -- what the engine holds (DBPartitions[db][pt].shards), in order of creation
   dbDirs : List String      -- database directories below data/ and wal/ (made with the first shard, never removed)
+  pols : List Pol := []     -- the policies in which a DROP SERIES has named a series
 deriving Repr, DecidableEq
 
-def St.init : St := ⟨[], []⟩
+def St.init : St := ⟨[], [], []⟩
 
 def St.find (st : St) (id : Nat) : Option Shard := st.shards.find? (·.id == id)
 
 /-- `CreateShard` for a shard the catalogue has created (a shard id is never used twice). -/
 def St.mkShard (st : St) (db rp : String) (id ix : Nat) : St :=
   if (st.find id).isSome then st
-  else { shards := st.shards ++ [⟨db, rp, id, ix, []⟩]
-         dbDirs := if st.dbDirs.contains db then st.dbDirs else st.dbDirs ++ [db] }
+  else { st with shards := st.shards ++ [{ db := db, rp := rp, id := id, ix := ix, rows := [] }]
+                 dbDirs := if st.dbDirs.contains db then st.dbDirs else st.dbDirs ++ [db] }
 
 /-- `WriteRows` into a loaded shard; `none` when the engine does not hold the shard. -/
 def St.write (st : St) (id : Nat) (r : SRow) : Option St :=
   match st.find id with
   | none => none
-  | some _ => some { st with shards := st.shards.map fun sh => if sh.id == id then { sh with rows := r :: sh.rows } else sh }
+  | some _ => some { st with shards := st.shards.map fun sh =>
+      if sh.id == id then
+        { sh with rows := r :: sh.rows
+                  series := if sh.series.contains (r.mst, r.s) then sh.series else sh.series ++ [(r.mst, r.s)] }
+      else sh }
 
 /-- `EngineImpl.DropMeasurement db rp name shardIds`: the rows of the measurement go from the named
 shards of the database. -/
@@ -57,16 +73,65 @@ def St.dropMst (st : St) (db mst : String) (ids : List Nat) : St :=
 /-- `EngineImpl.DropRetentionPolicy`: the shards and indexes of the policy are closed and
 forgotten, its directories below data/ and wal/ removed. -/
 def St.dropRp (st : St) (db rp : String) : St :=
-  { st with shards := st.shards.filter fun sh => !(sh.db == db && sh.rp == rp) }
+  { st with shards := st.shards.filter fun sh => !(sh.db == db && sh.rp == rp)
+            pols := st.pols.filter fun p => !(p.db == db && p.rp == rp) }
 
 /-- `EngineImpl.DeleteDatabase`: the same for every policy of the database (the partition
 directory goes, the database directory stays). -/
 def St.dropDb (st : St) (db : String) : St :=
-  { st with shards := st.shards.filter fun sh => !(sh.db == db) }
+  { st with shards := st.shards.filter fun sh => !(sh.db == db)
+            pols := st.pols.filter fun p => !(p.db == db) }
 
 /-- a start of the store with the shard list of the catalogue: what is on disk and listed is loaded. -/
 def St.restart (st : St) (listed : List Nat) : St :=
-  { st with shards := st.shards.filter fun sh => listed.contains sh.id }
+  { st with shards := (st.shards.filter fun sh => listed.contains sh.id).map fun sh => { sh with busy := false }
+            pols := st.pols.map fun p => { p with mem := p.disk } }
+
+/-! ### DROP SERIES and its purge over the indexes of a policy
+
+`DropSeries.Process` searches the predicate on the index of every shard of the database and
+stores the tsids in the deleted-tsid index of the shard's policy (one per policy, shared by all
+its indexes); the rows of the series are not touched but no read returns them any more.
+`EngineImpl.DropSeries` purges policy by policy (`tsi.DropSeriesOfPolicy`): when the policy's
+deleted set in memory is not empty, every index of the policy is walked; only if none of them
+had to leave parts to a running merger is the deleted set on disk emptied. -/
+
+def setPol (pols : List Pol) (db rp : String) (mem disk : Bool) : List Pol :=
+  ⟨db, rp, mem, disk⟩ :: pols.filter fun p => !(p.db == db && p.rp == rp)
+
+def St.polOf (st : St) (db rp : String) : Option Pol := st.pols.find? fun p => p.db == db && p.rp == rp
+
+/-- DROP SERIES FROM mst WHERE host = s on a database. -/
+def St.dropSeries (st : St) (db mst : String) (s : Nat) : St :=
+  let hit := st.shards.filter fun sh => sh.db == db && sh.series.contains (mst, s)
+  { st with
+    shards := st.shards.map fun sh =>
+      if sh.db == db && sh.series.contains (mst, s) then
+        { sh with series := sh.series.filter (· != (mst, s)), hidden := sh.hidden ++ [(mst, s)]
+                  rows := sh.rows.filter fun r => !(r.mst == mst && r.s == s) }
+      else sh
+    pols := hit.foldl (fun ps sh => setPol ps sh.db sh.rp true true) st.pols }
+
+/-- how many series the drop selects per shard of the database. -/
+def St.dropCount (st : St) (db mst : String) (s : Nat) : List (Nat × Nat) :=
+  (st.shards.filter (·.db == db)).map fun sh => (sh.id, if sh.series.contains (mst, s) then 1 else 0)
+
+def St.setBusy (st : St) (id : Nat) (b : Bool) : St :=
+  { st with shards := st.shards.map fun sh => if sh.id == id then { sh with busy := b } else sh }
+
+/-- is the purge of the policy refused?  (an index of the policy has parts in a running merge) -/
+def St.polBusy (st : St) (p : Pol) : Bool := st.shards.any fun sh => sh.db == p.db && sh.rp == p.rp && sh.busy
+
+/-- `EngineImpl.DropSeries`. -/
+def St.purge (st : St) : St :=
+  { st with
+    shards := st.shards.map fun sh =>
+      match st.polOf sh.db sh.rp with
+      | some p => if p.mem && !sh.busy then { sh with hidden := [] } else sh
+      | none => sh
+    pols := st.pols.map fun p => if p.mem && !st.polBusy p then { p with disk := false } else p }
+
+def St.purgeRefused (st : St) : Bool := st.pols.any fun p => p.mem && st.polBusy p
 
 /-! ### observations -/
 
@@ -85,6 +150,14 @@ def lww (mst : String) : List SRow → List SRow
 
 def St.dump (st : St) (id : Nat) (mst : String) : Option (List SRow) :=
   (st.find id).map fun sh => (lww mst sh.rows).foldr insertRow []
+
+def insertNat' (x : Nat) : List Nat → List Nat
+  | [] => [x]
+  | y :: ys => if x ≤ y then x :: y :: ys else y :: insertNat' x ys
+
+/-- SHOW SERIES of one measurement on the shard's index. -/
+def St.seriesOf (st : St) (id : Nat) (mst : String) : Option (List Nat) :=
+  (st.find id).map fun sh => ((sh.series.filter (·.1 == mst)).map (·.2)).foldr insertNat' []
 
 /-- what the engine holds: (db, rp, "shard" | "index", id). -/
 def St.loaded (st : St) : List (String × String × String × Nat) :=
